@@ -457,7 +457,8 @@ def run(ctx):
     bc = fold.ev(first[0].value, RS) if first else []
     ctx.ob(R5, f"{RS}.BaseHTTPResponse", "always-on codecs: gzip, x-gzip, deflate", {"gzip", "x-gzip", "deflate"} <= set(bc), str(bc))
     idc = m.method(f"{RS}.BaseHTTPResponse", "_init_decoder")
-    ctx.ob(R5, idc.qual, "content-encoding is matched case-insensitively", ".lower()" in astq.text(idc.node))
+    ctx.ob(R5, idc.qual, "content-encoding is matched case-insensitively",
+           any(isinstance(c.func, ast.Attribute) and c.func.attr in ("lower", "casefold") for q_ in sorted(_hc5(m, [idc], stop=("_get_decoder",))) if q_ in m.funcs for c in astq.calls(m.funcs[q_].node)))
 
     # ------------------------------------------------------------------ R6 flush at end
     R6 = ctx.rule("C12-R6", "the decoder is flushed at the end of the body: flush_decoder is true when reading everything (amt None) or when a sized read returned no data, and false otherwise", "E5 on read")
@@ -521,9 +522,28 @@ def run(ctx):
         ctx.ob(R7, sf.qual, "each iteration reads through read(amt, decode_content)", ok)
     # readinto / __iter__ / data use the same readers
     ri = m.method(f"{RS}.BaseHTTPResponse", "readinto")
-    ctx.ob(R7, ri.qual, "readinto reads through read(len(b))", "self.read(len(b))" in astq.text(ri.node))
+    def _bound(call, callee):
+        ps = callee.params()
+        b_ = {ps[i_]: a_ for i_, a_ in enumerate(call.args) if i_ < len(ps) and not isinstance(a_, ast.Starred)}
+        b_.update({k_.arg: k_.value for k_ in call.keywords if k_.arg})
+        return b_
+    # readinto: the bytes come from self.read(<the length of the caller's buffer>) and from nowhere else
+    rcalls = [c for c in astq.calls(ri.node) if astq.call_text(c) == "self.read"]
+    other = [astq.call_text(c) for c in astq.calls(ri.node) if astq.call_text(c).startswith(("self._fp", "self._raw_read", "self.read1", "self.read_chunked"))]
+    bp = ri.params()[0] if ri.params() else "b"
+    ok_ri = len(rcalls) == 1 and not other
+    if ok_ri:
+        amt_ = _bound(rcalls[0], m.method(HR, "read")).get("amt")
+        src_ = list(astq.sources_of(ri.node, amt_)) if amt_ is not None else []
+        ok_ri = any(isinstance(x_, ast.Call) and astq.call_text(x_) == "len" and x_.args and astq.text(x_.args[0]) == bp for x_ in src_)
+    ctx.ob(R7, ri.qual, "readinto reads through read(len(b))", ok_ri)
     itf = m.method(HR, "__iter__")
-    ctx.ob(R7, itf.qual, "iteration reads through stream(decode_content=True)", "self.stream(decode_content=True)" in astq.text(itf.node))
+    scalls = [c for c in astq.calls(itf.node) if astq.call_text(c) == "self.stream"]
+    ok_it = len(scalls) == 1
+    if ok_it:
+        dc_ = _bound(scalls[0], m.method(HR, "stream")).get("decode_content")
+        ok_it = isinstance(dc_, ast.Constant) and dc_.value is True
+    ctx.ob(R7, itf.qual, "iteration reads through stream(decode_content=True)", ok_it)
 
     # ------------------------------------------------------------------ shared with C13-R1: the raw reader neither hides a short body nor cuts a good one
     from . import c13_rows
